@@ -11,7 +11,6 @@ EXTRA_PROPS = {
     'C07.recipients.r3c3': ['C05'],
     'C13.complete': ['C10'],               # accept gate not re-evaluated after Hello = bus stops accepting (seed C10-1 / C13-2)
     'C07.tokenize.safety': ['C10'],        # token array overrun = daemon abort from one AddMatch (seed C10-2)
-    'C07.tokenize': ['C10'],
     'C12.edit.remove_unknown': ['C03'],    # unknown header fields really removed (seed C03-1)
     'C12.edit.delete_field': ['C02'],      # stale header cache after deleting a field (seed C02-2)
     'C12.edit.set_field': ['C02'],
@@ -29,6 +28,8 @@ EXTRA_PROPS = {
 }
 # loop-free units that take ~1 s: a short timeout so that the 'function grew a loop' retry (tool/core.py) starts early
 TIMEOUT = {'C12.edit.set_field': 120, 'C14.hdr_edit.set_field': 120, 'C12.edit.delete_field': 120, 'C14.hdr_edit.delete_field': 120}
+# C07.tokenize carries the grammar clause post6 (known finding of C07); its safety obligations are those of C07.tokenize.safety
+REMOVE_PROPS = {'C07.tokenize': ['C10']}
 QUICK = ['C04.swap_owner.restore']          # moved to the quick tier (95 s): rollback of a replacement (seed C14-2)
 
 _here = os.path.dirname(__file__)
@@ -38,6 +39,8 @@ for _m in sorted(f[:-3] for f in os.listdir(_here) if f.endswith('.py') and not 
         for _p in EXTRA_PROPS.get(_u['name'], []):
             if _p not in _u['props']:
                 _u['props'] = list(_u['props']) + [_p]
+        for _p in REMOVE_PROPS.get(_u['name'], []):
+            _u['props'] = [x for x in _u['props'] if x != _p]
         if _u['name'] in QUICK:
             _u['tier'] = 'quick'
         if _u['name'] in TIMEOUT:
